@@ -68,7 +68,10 @@ def rename(src, tag):
             base = w.rstrip("%&!#$")
             suffix = w[len(base):]
             up = w.upper()
-            if up in KEYWORDS or up in BUILTIN_FUNCS or base.upper() in KEYWORDS or (base.upper() + "$") in BUILTIN_FUNCS or base.upper() in BUILTIN_FUNCS:
+            first = base.split(".")[0].upper()
+            if (up in KEYWORDS or up in BUILTIN_FUNCS or base.upper() in KEYWORDS or (base.upper() + "$") in BUILTIN_FUNCS or base.upper() in BUILTIN_FUNCS
+                    or first in KEYWORDS or first in BUILTIN_FUNCS or (first + "$") in BUILTIN_FUNCS):
+                # also a dotted name whose first part is the name of a built-in (Ltrim.Value): every spelling of that base stays
                 out.append(t)
                 continue
             segs = base.split(".")
